@@ -220,6 +220,10 @@ func runC15(c *Ctx) {
 							c.Report("O", "C15 bitflip-accepted", "a single-bit corruption of the payload was not reported as an error",
 								tag+"\nserialized="+hx(clip(s))+fmt.Sprintf("\nflip bit %d of payload byte %d", p%8, p/8)+"\ngot="+clipS(got))
 						}
+						if got0 := deserSafe(m, false); got0 != "err" {
+							c.Report("O", "C15 bitflip-accepted uncompress=false", "a single-bit corruption of the payload was not reported as an error when no decompression was requested",
+								tag+"\nserialized="+hx(clip(s))+fmt.Sprintf("\nflip bit %d of payload byte %d; DeserializeData(corrupted, false)", p%8, p/8)+"\ngot="+clipS(got0))
+						}
 						flips++
 						if len(m) <= 600 {
 							c.AskCmp("dvid.DeserializeData(corrupt)", fmt.Sprintf("deser 1 %s %s", hx(m), "E"), got)
@@ -230,8 +234,10 @@ func runC15(c *Ctx) {
 						m := append([]byte{}, s...)
 						p := hdr + r.Intn(len(s)-hdr)
 						m[p] ^= byte(1 + r.Intn(255))
-						if got := deserSafe(m, true); got != "err" {
-							c.Report("O", "C15 byteflip-accepted", "a single-byte corruption of the payload was not reported as an error", tag+"\n"+hx(clip(m)))
+						for _, u := range []bool{true, false} {
+							if got := deserSafe(m, u); got != "err" {
+								c.Report("O", fmt.Sprintf("C15 byteflip-accepted uncompress=%v", u), "a single-byte corruption of the payload was not reported as an error", tag+"\n"+hx(clip(m)))
+							}
 						}
 						flips++
 					}
